@@ -23,11 +23,17 @@ TRUSTED = [
     'C06/Strings.v: hand-written byte-level models of int(str) (= NumPy str/bytes -> integer astype per element), str.format with {i:d} '
     'fields and re.match/re.fullmatch for literal + (\\d+) patterns, ASCII only -- tied by the string correspondence families '
     '(signs, blanks, underscores, leading zeros, malformed, beyond 64 bits; str and bytes arrays)',
-    'byte order and strides of the unwrap inputs (exercised, not modelled)',
+    'Lib/NumpyInt.v (round 6): np.array([v], dtype=t) raises OverflowError when v does not fit, np.array([v]) infers bool / int64 / uint64 / '
+    'object; tied by the scalar-form and beyond-64-bit families',
+    'byte order, strides, read-only flag and 2-D Fortran order of array arguments of all four functions (exercised, not modelled)',
     'Coq stdlib ZArith, Lia (theorems closed under the global context)',
 ]
 ASSUMPTIONS = [
-    'array-valued run2d strings and non-int scalar types (numpy scalars, bools) are outside the modelled calling conventions',
+    'array-valued run2d strings are outside the modelled calling conventions; Python lists (not a documented argument type) are only '
+    'required never to yield a wrong ID (any rejection is accepted)',
+    'scalar spellings (round 6): Python bool, NumPy integer/bool scalars and 0-d arrays mean their integer value (documented side); the '
+    'function model covers them only where the normalising helper _python_int read from the source is applied (otherwise the code sees an '
+    'array of shape (), which is not modelled: the case is then reported as model-differs, plus failing input when the documented answer is missed)',
     'non-ASCII text (Unicode digits and Unicode white space, which int() and \\d accept) and NUL characters in ID / run2d strings are '
     'outside the string model; digit strings longer than the interpreter limit for int() (4300) likewise',
     'the typed (storage-type) theorems cover the all-array calling convention of the packers and int64/uint64 ID arrays of the unwrappers; '
@@ -48,7 +54,7 @@ def translate(ctx):
     else:
         info['restored_committed_file'] = C.restore_generated('coq/Generated/SdssIds.v')
         try:
-            stale = 'unwrap_objid_record' not in open(path).read()
+            stale = 'int64_array_promoter' not in open(path).read()
         except OSError:
             stale = True
         if stale and os.path.realpath(C.REPO) != '/repo':
@@ -115,7 +121,7 @@ DTYPES = {'int16': (-2 ** 15, 2 ** 15 - 1), 'uint16': (0, 2 ** 16 - 1), 'int32':
           'uint32': (0, 2 ** 32 - 1), 'int64': (-2 ** 63, 2 ** 63 - 1), 'uint64': (0, 2 ** 64 - 1)}
 
 # memory layouts of the integer ID arrays handed to the unwrap functions (same values in all three)
-LAYOUTS = ('native', 'bigendian', 'strided')
+LAYOUTS = ('native', 'bigendian', 'strided', 'reversed', 'bigendian-reversed', 'readonly', '2d-transposed')
 
 
 def gen_calls(ctx):
@@ -247,13 +253,14 @@ def gen_calls(ctx):
     # unwrap: ids from in-range tuples and arbitrary 63/64-bit words
     obj_ids = [rng.getrandbits(63) for _ in range(ctx.n(300, 3000))] + [0, 2 ** 63 - 1, 1, 2 ** 59, 2 ** 48 - 1]
     spec_ids = [rng.getrandbits(64) for _ in range(ctx.n(450, 3000))] + [0, 2 ** 64 - 1, 2 ** 63, 2 ** 50 - 1]
+    lay_off = rng.randrange(len(LAYOUTS))
     nint = 0
     for chunk in range(0, len(obj_ids), 50):
         ids = obj_ids[chunk:chunk + 50]
         as_str = (chunk // 50) % 2 == 1
         if as_str and (chunk // 50) % 4 == 3:
             as_str = 'bytes'
-        calls.append(('unobj', {'f': 'unobj', 'ids': ids, 'as_str': as_str, 'layout': LAYOUTS[nint % 3]}))
+        calls.append(('unobj', {'f': 'unobj', 'ids': ids, 'as_str': as_str, 'layout': LAYOUTS[(nint + lay_off) % len(LAYOUTS)]}))
         nint += 0 if as_str else 1
     nint = 0
     for chunk in range(0, len(spec_ids), 50):
@@ -262,7 +269,7 @@ def gen_calls(ctx):
         if as_str and (chunk // 50) % 6 == 4:
             as_str = 'bytes'
         calls.append(('unspec', {'f': 'unspec', 'ids': ids, 'as_str': as_str, 'index': (chunk // 50) % 3 == 2,
-                                 'layout': LAYOUTS[nint % 3]}))
+                                 'layout': LAYOUTS[:-1][(nint + lay_off) % (len(LAYOUTS) - 1)]}))
         nint += 0 if as_str else 1
 
     # exhaustive per-field sweeps with the other fields at their extremes
@@ -452,6 +459,190 @@ def gen_xcalls(ctx):
     return calls
 
 
+
+# ---------------------------------------------------------------------------------------------------------------
+# Round 6: classes E (spellings of a scalar), A (argument arrays refilled in place between two calls), B (memory
+# layouts for every entry point) and G (error classes of the unwrappers)
+
+NP_INT = {'int8': (-128, 127), 'uint8': (0, 255), 'int16': (-2 ** 15, 2 ** 15 - 1), 'uint16': (0, 2 ** 16 - 1),
+          'int32': (-2 ** 31, 2 ** 31 - 1), 'uint32': (0, 2 ** 32 - 1), 'int64': (-2 ** 63, 2 ** 63 - 1), 'uint64': (0, 2 ** 64 - 1)}
+FORM_CLASSES = ['bool', 'numpy-scalar', '0-d-array', '1-element-array', 'list']
+ARG_LAYOUTS = ['native', 'bigendian', 'strided', 'reversed', 'bigendian-reversed', 'readonly']
+
+
+def spell(rng, v, cls):
+    """Descriptor of the integer v spelled in form class cls (None: v cannot be spelled that way)."""
+    if cls == 'int':
+        return s(v)
+    if cls == 'bool':
+        return {'s': int(v), 'form': 'bool'} if v in (0, 1) else None
+    if cls == 'list':
+        return {'a': [int(v)], 'form': 'list'}
+    fits = [n for n, (lo, hi) in NP_INT.items() if lo <= v <= hi]
+    if v in (0, 1):
+        fits += ['bool'] * 4
+    if not fits:
+        return None
+    dt = rng.choice(fits)
+    if cls == 'numpy-scalar':
+        return {'s': int(v), 'form': 'np:' + dt}
+    if cls == '0-d-array':
+        return {'s': int(v), 'form': '0d:' + dt}
+    return {'a': [int(v)], 'dt': dt}
+
+
+def form_term(x):
+    if x is None or ('s' in x and x.get('form') in (None, 'bool')):
+        return 'FPy'
+    if 's' in x:
+        kind, dt = x['form'].split(':')
+        return '(FNp ZeroDimArray)' if kind == '0d' else ('(FNp NpBoolScalar)' if dt == 'bool' else '(FNp NpIntegerScalar)')
+    return 'FArr'
+
+
+def gen_form_calls(ctx):
+    rng = ctx.rng
+    calls = []
+    reps = ctx.n(6, 60)
+    for cls in FORM_CLASSES:
+        for mode in ('one', 'all', 'one-rest-omitted'):
+            for k in range(reps):
+                # ---- sdss_objid
+                v = rand_in(rng, OBJ_RANGES)
+                i = rng.randrange(7)
+                bad = rng.random() < 0.25
+                if cls == 'bool':
+                    if mode == 'all':
+                        v = [rng.randint(0, 1) for _ in v]
+                        v[3] = 1
+                    v[i] = 1 if i == 3 else rng.randint(0, 1)
+                    if bad:
+                        i, v[3] = 3, 0                      # camcol=False is the only out-of-range bool
+                elif bad:
+                    lo, hi = OBJ_RANGES[i]
+                    v[i] = rng.choice([lo - 1, hi + 1, hi + 1, -rng.randint(2, 100), 2 ** 31 - 1, 2 ** 63 - 1])
+                args = {}
+                for j, nm in enumerate(OBJ_NAMES):
+                    c_ = cls if (mode == 'all' or j == i) else 'int'
+                    args[nm] = spell(rng, v[j], c_) or s(v[j])
+                if mode == 'one-rest-omitted':
+                    for nm in ('rerun', 'skyversion', 'firstfield'):
+                        if OBJ_NAMES.index(nm) != i:
+                            args[nm] = None
+                calls.append(('forms-objid-%s-%s' % (cls, mode), {'f': 'objid', 'args': args, 'forms': cls}))
+                # ---- sdss_specobjid
+                v = rand_in(rng, SPEC_RANGES)
+                use = rng.choice([None, None, 'line', 'index', 'both'] if mode != 'one-rest-omitted' else [None])
+                live = [0, 1, 2, 3] + ([4] if use in ('line', 'both') else []) + ([5] if use in ('index', 'both') else [])
+                i = rng.choice(live)
+                bad = rng.random() < 0.25
+                true = list(v)
+                true[2] += 50000
+                if cls == 'bool':
+                    if mode == 'all':
+                        true = [rng.randint(0, 1) for _ in true]    # mjd=True/False is out of range: ValueError
+                    else:
+                        true[i] = rng.randint(0, 1)
+                elif bad:
+                    lo, hi = SPEC_RANGES[i]
+                    off = 50000 if i == 2 else 0
+                    true[i] = rng.choice([lo - 1 + off, hi + 1 + off, -rng.randint(2, 100), 2 ** 31 - 1, 2 ** 63 - 1] + ([rng.randint(0, 49999), 65536 + rng.randint(0, 16383)] if i == 2 else []))
+                args = {}
+                for j, nm in enumerate(SPEC_NAMES):
+                    c_ = cls if (mode == 'all' or j == i) else 'int'
+                    args[nm] = (spell(rng, true[j], c_) or s(true[j])) if j in live else None
+                if i != 3 and mode != 'all' and rng.random() < 0.3 and 0 <= true[3] < 2 ** 14:
+                    r = true[3]
+                    args['run2d'] = {'str': 'v%d_%d_%d' % (r // 10000 + 5, (r % 10000) // 100, r % 100), 'tag': r}
+                calls.append(('forms-spec-%s-%s' % (cls, mode), {'f': 'spec', 'args': args, 'forms': cls}))
+    return calls
+
+
+def gen_reuse_layout_calls(ctx):
+    rng = ctx.rng
+    calls = []
+
+    def typed(cols_list, layout):
+        """one descriptor list per step; a common dtype per argument that holds the values of every step"""
+        out = [[], []]
+        for col in zip(*cols_list):
+            allv = [x for c_ in col for x in c_]
+            fits = [n for n, (lo, hi) in DTYPES.items() if lo <= min(allv) and max(allv) <= hi]
+            dt = rng.choice(fits)
+            ly = layout or rng.choice(ARG_LAYOUTS[:-1])
+            for k_, c_ in enumerate(col):
+                out[k_].append({'a': [int(x) for x in c_], 'dt': dt, 'layout': ly})
+        return out
+
+    def rows_objid(n):
+        rows = [rand_in(rng, OBJ_RANGES) for _ in range(n)]
+        if rng.random() < 0.25:
+            rows[rng.randrange(n)][rng.randrange(7)] = rng.choice([-1, 70000, 2 ** 33])
+        return list(zip(*rows))
+
+    def rows_spec(n):
+        rows = [rand_in(rng, SPEC_RANGES) for _ in range(n)]
+        if rng.random() < 0.25:
+            rows[rng.randrange(n)][rng.randrange(4)] = rng.choice([-1, 70000, 2 ** 33])
+        cols = [list(c_) for c_ in zip(*rows)]
+        cols[2] = [m + 50000 for m in cols[2]]
+        return cols
+
+    # class A: two calls with the very same array objects, refilled in place in between
+    for k in range(ctx.n(24, 300)):
+        n = rng.randint(1, 4)
+        d1, d2 = typed([rows_objid(n), rows_objid(n)], None)
+        a1, a2 = dict(zip(OBJ_NAMES, d1)), dict(zip(OBJ_NAMES, d2))
+        for nm in ('rerun', 'skyversion', 'firstfield'):
+            if rng.random() < 0.3:
+                a1[nm] = a2[nm] = None
+        calls.append(('reuse-objid', {'f': 'objid', 'args': a1, 'args2': a2, 'order': ['run', 'camcol', 'field', 'objnum']}))
+        d1, d2 = typed([rows_spec(n), rows_spec(n)], None)
+        a1, a2 = dict(zip(SPEC_NAMES, d1)), dict(zip(SPEC_NAMES, d2))
+        use = rng.choice([None, 'line', 'index'])
+        for nm in ('line', 'index'):
+            if nm != use:
+                a1[nm] = a2[nm] = None
+        calls.append(('reuse-spec', {'f': 'spec', 'args': a1, 'args2': a2, 'order': ['plate', 'fiber', 'mjd', 'run2d']}))
+    # class B: every array argument of the packers in its own memory layout / all of them two-dimensional (Fortran order)
+    for k in range(ctx.n(24, 300)):
+        n = 2 * rng.randint(1, 3)
+        two_d = k % 4 == 0
+        d1, = typed([rows_objid(n)], '2d-transposed' if two_d else None)[:1]
+        if not two_d:
+            for x in d1:
+                x['layout'] = rng.choice(ARG_LAYOUTS)
+        calls.append(('layout-objid' + ('-2d' if two_d else ''), {'f': 'objid', 'args': dict(zip(OBJ_NAMES, d1))}))
+        d1, = typed([rows_spec(n)], '2d-transposed' if two_d else None)[:1]
+        if not two_d:
+            for x in d1:
+                x['layout'] = rng.choice(ARG_LAYOUTS)
+        a1 = dict(zip(SPEC_NAMES, d1))
+        use = rng.choice([None, 'line', 'index'])
+        for nm in ('line', 'index'):
+            if nm != use:
+                a1[nm] = None
+        calls.append(('layout-spec' + ('-2d' if two_d else ''), {'f': 'spec', 'args': a1}))
+    # unwrap: every layout for both entry points in every run, with the ID array refilled in place afterwards
+    for f_, bits_ in (('unobj', 63), ('unspec', 64)):
+        for ly in LAYOUTS:
+            for rep in range(ctx.n(1, 6)):
+                ids = [rng.getrandbits(bits_) for _ in range(6)]
+                if f_ == 'unspec' and ly == '2d-transposed':
+                    continue       # the default (string run2d) mode of unwrap_specobjid is one-dimensional by construction
+                c = {'f': f_, 'ids': ids, 'as_str': False, 'layout': ly, 'ids2': [rng.getrandbits(bits_) for _ in range(6)]}
+                if f_ == 'unspec':
+                    c['index'] = rng.random() < 0.5
+                calls.append(('%s-layout-refill' % f_, c))
+    # class G: integer-like arrays of a type the unwrappers do not accept must be rejected with ValueError, never unwrapped wrongly
+    for f_, bad in (('unobj', ['int32', 'uint32', 'int16', 'uint64', 'float64', 'bool']), ('unspec', ['int32', 'uint32', 'int16', 'int64', 'float64', 'bool'])):
+        for dt in bad:
+            top = 1 if dt == 'bool' else (15 if dt == 'int16' else 31)
+            ids = [rng.getrandbits(top) for _ in range(4)]
+            calls.append(('%s-badtype' % f_, {'f': f_, 'ids': ids, 'as_str': False, 'layout': 'native', 'dt': dt, 'badtype': True}))
+    return calls
+
+
 def str_lit(text):
     return C.coq_list(['%d' % ord(ch) for ch in text])
 
@@ -462,27 +653,45 @@ def xres_term(r):
     return 'XValueError' if r.get('err') == 'ValueError' else 'XOther'
 
 
+def xobjid_args(A):
+    return '%s %s %s %s %s %s %s' % (
+        arg_term(A['run']), arg_term(A['camcol']), arg_term(A['field']), arg_term(A['objnum']),
+        C.optlit(A.get('rerun'), arg_term), C.optlit(A.get('skyversion'), arg_term), C.optlit(A.get('firstfield'), arg_term))
+
+
 def xcase_terms(calls, results):
     """round-5 cases (evaluator run_xcases) -> list of (call index, sub index, coq term)"""
     terms = []
     for ci, ((tag, c), r) in enumerate(zip(calls, results)):
         f = c['f']
-        if f == 'objid':
+        if c.get('forms'):
+            if c['forms'] == 'list' and 'ok' not in r:
+                continue      # a Python list is outside the documented argument types: any rejection is accepted
             A = c['args']
-            terms.append((ci, 0, '(XObjidCall %s %s %s %s %s %s %s %s)' % (
-                arg_term(A['run']), arg_term(A['camcol']), arg_term(A['field']), arg_term(A['objnum']),
-                C.optlit(A.get('rerun'), arg_term), C.optlit(A.get('skyversion'), arg_term),
-                C.optlit(A.get('firstfield'), arg_term), res_term(r))))
+            if f == 'objid':
+                terms.append((ci, 0, '(XObjidForms %s %s %s)' % (
+                    C.coq_list([form_term(A.get(k)) for k in OBJ_NAMES]), xobjid_args(A), res_term(r))))
+            else:
+                r2 = A['run2d']
+                r2t = '(RStr %s)' % str_lit(r2['str']) if 'str' in r2 else ('(RInt %s)' % C.zlit(r2['s']) if 's' in r2 else
+                                                                          '(RArr %s)' % C.coq_list([C.zlit(v) for v in r2['a']]))
+                terms.append((ci, 0, '(XSpecForms %s %s %s %s %s %s %s %s)' % (
+                    C.coq_list([form_term(A.get(k)) for k in SPEC_NAMES]), arg_term(A['plate']), arg_term(A['fiber']),
+                    arg_term(A['mjd']), r2t, C.optlit(A['line'], arg_term), C.optlit(A['index'], arg_term), res_term(r))))
+        elif f == 'objid':
+            terms.append((ci, 0, '(XObjidCall %s %s)' % (xobjid_args(c['args']), res_term(r))))
+            if c.get('args2') and 'step2' in r:
+                terms.append((ci, 1, '(XObjidCall %s %s)' % (xobjid_args(c['args2']), res_term(r['step2']))))
         elif f == 'specstr':
             terms.append((ci, 0, '(XSpecStr %s %s %s %s %s)' % (C.zlit(c['p']), C.zlit(c['fb']), C.zlit(c['m']), str_lit(c['s']), res_term(r))))
         elif f == 'unobjstr':
             terms.append((ci, 0, '(XUnObjStr %s %s)' % (str_lit(c['s']), xres_term(r))))
         elif f == 'unspecstr':
             terms.append((ci, 0, '(XUnSpecStr %s %s)' % (str_lit(c['s']), xres_term(r))))
-        elif f == 'unobj' and 'ok' in r:
+        elif f == 'unobj' and 'ok' in r and not c.get('badtype'):
             for j, (i_, row) in enumerate(zip(c['ids'], r['ok'])):
                 terms.append((ci, j, '(XUnObjTyped %s %s)' % (C.zlit(i_), C.coq_list([C.zlit(v) for v in row]))))
-        elif f == 'unspec' and 'ok' in r and 'tags' in r:
+        elif f == 'unspec' and 'ok' in r and 'tags' in r and not c.get('badtype'):
             for j, (i_, row, tg) in enumerate(zip(c['ids'], r['ok'], r['tags'])):
                 if len(row) == 8 and all(ord(ch) < 256 for ch in tg):
                     five = row[:4] + row[7:]
@@ -516,34 +725,46 @@ def case_terms(calls, results, default_sky):
     terms = []
     for ci, ((tag, c), r) in enumerate(zip(calls, results)):
         f = c['f']
+        if c.get('forms'):
+            continue          # judged by XObjidForms / XSpecForms (run_xcases)
         if f == 'objid':
-            A = c['args']
-
-            def d(key, dv):
-                return arg_term(A[key]) if A.get(key) is not None else '(Sc %s)' % C.zlit(dv)
-            terms.append((ci, 0, '(CObjid %s %s %s %s %s %s %s %s %s)' % (
-                C.zlit(default_sky), arg_term(A['run']), arg_term(A['camcol']), arg_term(A['field']),
-                arg_term(A['objnum']), d('rerun', 301), d('skyversion', default_sky), d('firstfield', 0), res_term(r))))
+            def objid_case(A, r_):
+                def d(key, dv):
+                    return arg_term(A[key]) if A.get(key) is not None else '(Sc %s)' % C.zlit(dv)
+                return '(CObjid %s %s %s %s %s %s %s %s %s)' % (
+                    C.zlit(default_sky), arg_term(A['run']), arg_term(A['camcol']), arg_term(A['field']),
+                    arg_term(A['objnum']), d('rerun', 301), d('skyversion', default_sky), d('firstfield', 0), res_term(r_))
+            terms.append((ci, 0, objid_case(c['args'], r)))
+            if c.get('args2') and 'step2' in r:
+                terms.append((ci, 1, objid_case(c['args2'], r['step2'])))
         elif f == 'spec':
-            A = c['args']
-            r2 = A['run2d']
-            if 'nmp' in r2:
-                r2t = '(R2str %s %s %s)' % tuple(C.zlit(x) for x in r2['nmp'])
-            elif 'str' in r2:
-                r2t = '(R2int %s)' % C.zlit(int(r2['str']))
-            elif 's' in r2:
-                r2t = '(R2int %s)' % C.zlit(r2['s'])
-            else:
-                r2t = '(R2arr %s)' % C.coq_list([C.zlit(v) for v in r2['a']])
-            terms.append((ci, 0, '(CSpec %s %s %s %s %s %s %s)' % (
-                arg_term(A['plate']), arg_term(A['fiber']), arg_term(A['mjd']), r2t,
-                C.optlit(A['line'], arg_term), C.optlit(A['index'], arg_term), res_term(r))))
+            def spec_case(A, r_):
+                r2 = A['run2d']
+                if 'nmp' in r2:
+                    r2t = '(R2str %s %s %s)' % tuple(C.zlit(x) for x in r2['nmp'])
+                elif 'str' in r2:
+                    r2t = '(R2int %s)' % C.zlit(int(r2['str']))
+                elif 's' in r2:
+                    r2t = '(R2int %s)' % C.zlit(r2['s'])
+                else:
+                    r2t = '(R2arr %s)' % C.coq_list([C.zlit(v) for v in r2['a']])
+                return '(CSpec %s %s %s %s %s %s %s)' % (
+                    arg_term(A['plate']), arg_term(A['fiber']), arg_term(A['mjd']), r2t,
+                    C.optlit(A['line'], arg_term), C.optlit(A['index'], arg_term), res_term(r_))
+            terms.append((ci, 0, spec_case(c['args'], r)))
+            if c.get('args2') and 'step2' in r:
+                terms.append((ci, 1, spec_case(c['args2'], r['step2'])))
         elif f in ('unobj', 'unspec'):
             ctor = 'CUnObj' if f == 'unobj' else 'CUnSpec'
             if 'ok' in r:
                 for j, (i_, row) in enumerate(zip(c['ids'], r['ok'])):
                     terms.append((ci, j, '(%s %s %s)' % (ctor, C.zlit(i_), C.coq_list([C.zlit(v) for v in row]))))
-            else:
+                if c.get('ids2') and 'ok' in r.get('step2', {}):
+                    for j, (i_, row) in enumerate(zip(c['ids2'], r['step2']['ok'])):
+                        terms.append((ci, 1000 + j, '(%s %s %s)' % (ctor, C.zlit(i_), C.coq_list([C.zlit(v) for v in row]))))
+                elif c.get('ids2') and 'step2' in r:
+                    terms.append((ci, 1000, '(%s 0 [])' % ctor))
+            elif not c.get('badtype'):
                 terms.append((ci, 0, '(%s 0 [])' % ctor))   # any exception on unwrap is a mismatch
         elif f in ('tobj', 'tspec'):
             terms.append((ci, 0, '(%s [%s] %s %s)' % (
@@ -584,6 +805,16 @@ def signature(tag, c, r, verdict):
         if dts:
             conv += ('' if not conv else ',') + 'array-types-other-than-int64'
     out = 'ok' if ('ok' in r or 'sum' in r) else r.get('err', '?')
+    if c.get('forms'):
+        return 'C06:%s:arg-form=%s:impl=%s:%s' % (kind, c['forms'], out, 'property' if verdict >= 2 else 'model')
+    if c.get('args2') or c.get('ids2'):
+        s2 = r.get('step2', {})
+        return 'C06:%s:arrays-refilled-in-place:impl=%s/%s:%s' % (kind, out, 'ok' if 'ok' in s2 else s2.get('err', '-'),
+                                                                  'property' if verdict >= 2 else 'model')
+    if c.get('badtype'):
+        return 'C06:%s:undocumented-id-type:impl=%s:%s' % (kind, out, 'property' if verdict >= 2 else 'model')
+    if kind in ('objid', 'spec') and any(isinstance(v, dict) and v.get('layout') not in (None, 'native') for v in c['args'].values()):
+        conv += ('' if not conv else ',') + 'array-layouts-other-than-native'
     if kind == 'specstr':
         # classify by the documented meaning of the string, not by the string
         import re as _re
@@ -625,6 +856,8 @@ def correspond(ctx, proof_ok=True):
     calls = gen_calls(ctx)
     n_old = len(calls)
     calls += gen_xcalls(ctx)
+    calls += gen_form_calls(ctx)
+    calls += gen_reuse_layout_calls(ctx)
     # run implementation in a few parallel batches
     nb = 8
     batches = [calls[i::nb] for i in range(nb)]
@@ -719,6 +952,29 @@ def correspond(ctx, proof_ok=True):
             ctx.violation(sig, 'model and implementation disagree on %s (spec checker could not decide or accepts)' % tag,
                           {'kind': 'broken-correspondence', 'item': 'C06.Model.run_case', 'call': c, 'impl_result': results[ci],
                            'coq_case': t, 'verdict': v}, False)
+    forms_seen = {}
+    for ci, ((tag, c), r) in enumerate(zip(calls, results)):
+        if c.get('forms'):
+            k_ = '%s:%s:%s' % (c['f'], c['forms'], 'ok' if 'ok' in r else r.get('err', '?'))
+            forms_seen[k_] = forms_seen.get(k_, 0) + 1
+        if r.get('first_result_changed'):
+            direct_bad.append((ci, 'aliasing: the result of the first call changed when the caller refilled its argument arrays in place / called again'))
+        if r.get('shape_differs'):
+            direct_bad.append((ci, 'shape: the record array does not have the shape of the ID array (%s)' % r['shape_differs']))
+        if c.get('badtype'):
+            if 'ok' in r:
+                ctx.violation('C06:%s:undocumented-id-type:accepted' % c['f'],
+                              'an ID array of type %s is unwrapped although the source model (input-type dispatch) says ValueError' % c['dt'],
+                              {'kind': 'broken-correspondence', 'item': 'Generated.SdssIds.unwrap_*_intype', 'call': c, 'impl_result': r}, False)
+            elif r.get('err') != 'ValueError':
+                ctx.violation('C06:%s:undocumented-id-type:impl=%s' % (c['f'], r.get('err')),
+                              'an ID array of type %s is rejected with %s instead of ValueError' % (c['dt'], r.get('err')),
+                              {'kind': 'broken-correspondence', 'item': 'error class of the input-type dispatch', 'call': c, 'impl_result': r}, False)
+        if (c.get('args2') or (c.get('ids2') and c.get('layout') != 'readonly')) and 'ok' in r and 'step2' not in r:
+            direct_bad.append((ci, 'second step missing'))
+    ctx.coverage['round6'] = {'scalar_forms_by_function_class_outcome': forms_seen,
+                              'families': {k: v for k, v in dist.items() if k.split(':')[0] in ('forms', 'reuse', 'layout', 'unobj', 'unspec')},
+                              'scalar_handling_read_from_source': tinfo.get('scalar_handling')}
     for ci, ((tag, c), r) in enumerate(zip(calls, results)):
         if r.get('inputs_modified') or 'repeat_differs' in r:
             direct_bad.append((ci, 'array call modifies its arguments / a second call with the same arrays differs (%s; repeat: %s)'
@@ -737,7 +993,7 @@ def correspond(ctx, proof_ok=True):
                            'generated': gen_dt[f]}, False)
     for ci, why in direct_bad:
         tag, c = calls[ci]
-        ctx.violation('C06:%s:%s' % (c['f'], 'inputs-modified' if 'modifies' in why else 'roundtrip'), why, {'kind': 'failing-input', 'call': c, 'impl_result': results[ci]}, True)
+        ctx.violation('C06:%s:%s' % (c['f'], 'inputs-modified' if 'modifies' in why else ('result-aliases-arguments' if 'aliasing' in why else ('record-shape' if why.startswith('shape') else 'roundtrip'))), why, {'kind': 'failing-input', 'call': c, 'impl_result': results[ci]}, True)
 
 
 def want_doc(f):
